@@ -420,6 +420,14 @@ func c09Case(c *vc.Ctx, idx int) {
 					p.BeaconRoot = b
 					return true
 				}},
+				{"parent hash of 33 bytes that converts to the head's hash", 0, func(p *goatxtypes.ExecutionPayload) bool {
+					p.ParentHash = append([]byte{0xaa}, p.ParentHash...)
+					return true
+				}},
+				{"beacon root of 33 bytes that converts to the recorded root", 0, func(p *goatxtypes.ExecutionPayload) bool {
+					p.BeaconRoot = append([]byte{0x01}, p.BeaconRoot...)
+					return true
+				}},
 				{"authored by the other validator", 1, func(p *goatxtypes.ExecutionPayload) bool {
 					p.FeeRecipient = append([]byte(nil), w.Vals[1].Cons...)
 					return true
